@@ -5,6 +5,7 @@ import (
 	"regexp"
 	"strconv"
 	"strings"
+	"time"
 
 	"go.yaml.in/yaml/v3"
 
@@ -702,7 +703,8 @@ func errShape(s string) string {
 
 func c15Shard(tier string, shard, n int) *CustomResult {
 	run := &c15Run{nontrivial: map[string]bool{}, outcomes: map[string]bool{}, fpSeen: map[string]int{}, perFamily: map[string]int{}}
-	i := 0
+	i, skipped := 0, 0
+	deadline := shardDeadline(tier)
 	seen := map[string]bool{}
 	c15Families(tier == "thorough", func(d c15Doc) {
 		if seen[d.YAML] {
@@ -711,13 +713,17 @@ func c15Shard(tier string, shard, n int) *CustomResult {
 		seen[d.YAML] = true
 		i++
 		if i%n == shard {
+			if time.Now().After(deadline) {
+				skipped++
+				return
+			}
 			run.checkDoc(d)
 		}
 	})
 	if len(run.samples) == 0 {
 		run.samples = append(run.samples, c15Doc{"F4-structure", "partitions: []\n"})
 	}
-	cov := map[string]interface{}{"evaluations": run.evals, "distinct_nontrivial": len(run.nontrivial), "accepted_documents": run.accepted, "samples": run.samples, "exhaustive": true}
+	cov := map[string]interface{}{"evaluations": run.evals, "distinct_nontrivial": len(run.nontrivial), "accepted_documents": run.accepted, "samples": run.samples, "exhaustive": skipped == 0, "documents_not_run_time_budget": skipped}
 	for f, c := range run.perFamily {
 		cov["documents_"+f] = c
 	}
